@@ -459,5 +459,6 @@ func init() {
 			c.Res.Distribution["link-failure-during-send(oracle only)"]++
 		}
 		c.Compare(cases)
+		grammarOracle(c, "C03", cases)
 	})
 }
